@@ -267,4 +267,24 @@ example : ([0, 1, 2].map fun r => (⟨(7, 0), 3 * r, 100 + r⟩ : KRef)).Pairwis
 example : (run ((Resolve.loopO (Resolve.countOracle fun r => if r = 0 then 1 else 0) 4 [] [0, 1, 2] []).2.reverse.map
     fun r => (⟨(7, 0), 3 * r, 100 + r⟩ : KRef))).values (7, 0) = [100, 101, 102] := by decide
 
+/-! non-vacuity, providers that ask the resolver (`Resolve.depOracle`; an RREL expression walking over `~to`):
+text `p0 i1 p1 ; ptr p1 > p0  ptr p0 > i0` — references 0 1 2 form the list, 3 is `p1.to`, 4 is `p0.to`;
+0 walks over 4, 2 over 3, 3 over 4.  Round 0 resolves 1 and 4, round 1 resolves 0 and 3, round 2 resolves 2;
+a dependency resolved earlier in the same pass does not count yet (4 stands before nothing here, see the
+second example: `ptr p0 > i0  plus : p0 i1` — 1 walks over 0, which the same pass resolved just before). -/
+def exDep : Nat → List Nat := fun r => if r = 0 then [4] else if r = 2 then [3] else if r = 3 then [4] else []
+def exDepTab (r : Nat) : KRef := if r < 3 then ⟨(1, 0), 10 + 3 * r, 100 + r⟩ else ⟨(20 + r, 3), 40 + 10 * r, 0⟩
+
+example : (Resolve.loopO (Resolve.depOracle (fun _ => 0) exDep) 6 [] [0, 1, 2, 3, 4] []) = ([], [2, 3, 0, 4, 1]) := by
+  decide
+example : ([0, 1, 2, 3, 4].map exDepTab).Pairwise (fun a b => a.key = b.key → a.pos < b.pos) := by decide
+example : (run ((Resolve.loopO (Resolve.depOracle (fun _ => 0) exDep) 6 [] [0, 1, 2, 3, 4] []).2.reverse.map
+    exDepTab)).values (1, 0) = [100, 101, 102] := by decide
+/-- the stale answer of `has_unresolved_crossrefs` during a pass: one more round -/
+example : (Resolve.loopO (Resolve.depOracle (fun _ => 0) (fun r => if r = 1 then [0] else [])) 4 [] [0, 1, 2] []) =
+    ([], [1, 2, 0]) := by decide
+/-- the same schedule written with the resolver-query model of C09 (`loopQ`, a snapshot of `_crossrefs`) -/
+example : (Resolve.loopQ (fun r => if r = 1 then [Resolve.Wait.qry 0 7 (some 3)] else []) 4
+    [[⟨0, 7, 3⟩, ⟨1, 1, 0⟩, ⟨2, 1, 0⟩]] []) = ([[]], [1, 2, 0]) := by decide
+
 end RefList
